@@ -3,6 +3,8 @@ CONSTANTS
   Lease = 10
   NB = 6
   StrictReplayFh = FALSE
+  AnonOps = {}
+  PreClients = {}
   Names = {"a", "b", "c"}
   Clients = {}
   Verifs = {}
@@ -21,6 +23,7 @@ CONSTANTS
   MaxSid = 0
   MaxFile = 0
   MaxSeq = 0
+  MaxLSeq = 0
   MaxClock = 0
   MaxIO = 0
 INVARIANTS
